@@ -34,7 +34,7 @@ RENDER_REAL = {
 def _c01_parts(tier):
     from sim.engines import c01
     q = tier == "quick"
-    return [{"engine": "c01", "params": c01.default_params(tier), "runs": 20_000 if q else 600_000,
+    return [{"engine": "c01", "params": c01.default_params(tier), "runs": 18_000 if q else 600_000,
              "per_fork": 1, "wall_s": 90 if q else 1200}]
 
 
@@ -48,7 +48,7 @@ def _c05_parts(tier):
 def _c06_parts(tier):
     from sim.engines import c06
     q = tier == "quick"
-    return [{"engine": "c06", "params": c06.default_params(tier), "runs": 2_500 if q else 60_000,
+    return [{"engine": "c06", "params": c06.default_params(tier), "runs": 2_200 if q else 60_000,
              "per_fork": 1, "wall_s": 120 if q else 1500, "run_timeout_s": 120}]
 
 
@@ -81,7 +81,7 @@ def _c19_parts(tier):
 def _c07_parts(tier):
     from sim.engines import c07
     q = tier == "quick"
-    return [{"engine": "c07", "params": c07.default_params(tier), "runs": 6_000 if q else 200_000,
+    return [{"engine": "c07", "params": c07.default_params(tier), "runs": 5_000 if q else 200_000,
              "per_fork": 1, "wall_s": 120 if q else 1800, "run_timeout_s": 180}]
 
 
